@@ -238,6 +238,13 @@ def named_curve_records(quick, rng):
     for s in scal:
       recs.append(ok('mul-%d' % (s % 10 ** 9), 'Multiply', lambda: refec.from_lib(c.Multiply(lib(P), s)), rc.mul(s % n, P)))
     recs.append(ok('bmulg', 'BatchMultiplyG', lambda: [refec.from_lib(x) for x in c.BatchMultiplyG(list(scal))], [rc.mul(s % n, G) for s in scal]))
+    # batches of ONE scalar and small batches of scalars with the same empty comb columns (the comb doubles once per column
+    # whether or not any scalar of the batch has a tooth there)
+    small = [[2], [4], [256], [3 << steps], [1 << (2 * steps)], [n + 2], [n - 1], [(1 << (n.bit_length() - 1)) % n], [k], [2, 4, 6, 8, 10],
+             [256 * j for j in range(1, 6)], [1 << (steps * j) for j in range(8)], [0], []]
+    for bi, batch in enumerate(small):
+      recs.append(ok('bmulg-small-%d' % bi, 'BatchMultiplyG', lambda batch=batch: [refec.from_lib(x) for x in c.BatchMultiplyG(list(batch))],
+                     [rc.mul(s % n, G) for s in batch]))
     recs.append(ok('pseq', 'PointSequence', lambda: [refec.from_lib(x) for x in c.PointSequence(lib(P), 6)], [rc.mul(i, P) for i in range(6)]))
   return recs
 
